@@ -581,7 +581,7 @@ func c09Line(w *bufio.Writer, workers, count, nbytes, retry, retentionMs, dqmode
 func genC09(w *bufio.Writer, rng *hx.Rng, tier string) {
 	nrand := 600
 	if tier == "thorough" {
-		nrand = 9000
+		nrand = 6000
 	}
 	mkEvs := func(n int) []evSpec {
 		evs := make([]evSpec, n)
